@@ -221,6 +221,19 @@ def drive_tensor_product(ctx, case, api):
     if not custom:
         r = api.run('interpolate(array,nodes=greville)', lambda: approx.interpolate(kvs, V, nodes=nodes))
         api.compare('interpolate(array,nodes=greville)', r, c, TOL_DIRECT)
+    # the same values with another memory layout (same shape, other strides): Fortran order, and -- for vector / matrix
+    # valued data -- stored component-first and viewed component-last; the result depends on the values only
+    layouts = []
+    if V.ndim >= 2:
+        layouts.append(('fortran-order', np.asfortranarray(V)))
+        layouts.append(('reversed-axes-storage', np.ascontiguousarray(V.transpose()).transpose()))
+    if V.ndim > d:
+        layouts.append(('component-first-storage', np.moveaxis(np.ascontiguousarray(np.moveaxis(V, -1, 0)), 0, -1)))
+    for lname, VL in layouts:
+        assert VL.shape == V.shape and (VL == V).all()
+        call = 'interpolate(array[%s])' % lname
+        rl = api.run(call, lambda: approx.interpolate(kv_arg, VL, nodes=None if not custom else nodes))
+        api.compare(call, rl, c, TOL_DIRECT)
     # the data matched at the nodes: evaluate the interpolant with the library and compare with V
     if r is not None and np.asarray(r).shape == c.shape:
         api.calls += 1
